@@ -133,7 +133,8 @@ METHOD_MUTATES = {
     "reverse", "appendleft", "popleft", "extendleft", "difference_update", "intersection_update",
     "symmetric_difference_update", "move_to_end",
     # scipy.sparse in-place
-    "setdiag", "eliminate_zeros", "sort_indices", "sum_duplicates", "prune",
+    "setdiag", "eliminate_zeros", "sort_indices", "sum_duplicates", "prune", "__setitem__", "__delitem__",
+    "__iadd__", "__isub__", "__imul__", "__itruediv__", "__imatmul__",
     # Generator / RandomState state (only relevant for hidden state on self)
     "seed", "shuffle",
 }
@@ -153,7 +154,7 @@ METHOD_FRESH = {
     "norm", "lower", "upper", "format", "join", "split", "strip", "lstrip", "rstrip", "startswith", "endswith",
     "replace", "count", "index", "find", "encode", "decode", "title", "capitalize", "zfill", "ljust", "rjust",
     "is_integer", "conjugate_transpose", "inverse", "normalized", "abs", "angle", "sqrt", "exp", "log",
-    "getnnz", "count_nonzero", "diagonal_copy", "issubset", "issuperset", "union", "intersection", "difference",
+    "getnnz", "count_nonzero", "diagonal_copy", "sorted_indices", "maximum_copy", "issubset", "issuperset", "union", "intersection", "difference",
     "bit_length", "total_seconds", "isoformat", "strftime", "most_common", "elements",
 } | RNG_GENERATOR_DRAWS - {"shuffle"}
 
@@ -198,12 +199,14 @@ class Closure:
 
 class Val:
     """direct / inner origin sets; arr = the value is certainly a fresh numpy array (or scalar): a store into it
-    copies data, so it never comes to *hold* a reference to the stored value; fns = callables the value may be."""
-    __slots__ = ("direct", "inner", "arr", "fns")
+    copies data, so it never comes to *hold* a reference to the stored value; nd = the value is certainly a dense
+    numpy ndarray (never a scipy.sparse matrix), fresh or a view; fns = callables the value may be."""
+    __slots__ = ("direct", "inner", "arr", "fns", "nd")
 
-    def __init__(self, direct=frozenset(), inner=frozenset(), arr=False, fns=frozenset()):
+    def __init__(self, direct=frozenset(), inner=frozenset(), arr=False, fns=frozenset(), nd=False):
         self.direct, self.inner, self.arr = frozenset(direct), frozenset(inner), bool(arr)
         self.fns = frozenset(fns)
+        self.nd = bool(nd)
 
     def all(self):
         return self.direct | self.inner
@@ -211,32 +214,34 @@ class Val:
     def join(self, other):
         if other is None:
             return self
-        return Val(self.direct | other.direct, self.inner | other.inner, self.arr and other.arr, self.fns | other.fns)
+        return Val(self.direct | other.direct, self.inner | other.inner, self.arr and other.arr, self.fns | other.fns,
+                   self.nd and other.nd)
 
     def __eq__(self, o):
         return (isinstance(o, Val) and self.direct == o.direct and self.inner == o.inner and self.arr == o.arr
-                and self.fns == o.fns)
+                and self.fns == o.fns and self.nd == o.nd)
 
     def __hash__(self):
-        return hash((self.direct, self.inner, self.arr, self.fns))
+        return hash((self.direct, self.inner, self.arr, self.fns, self.nd))
 
     def __bool__(self):
         """tracked: the value may be (or hold) an object reachable from a parameter / captured variable / global"""
         return bool(self.direct or self.inner)
 
     def __repr__(self):
-        return (f"Val({set(self.direct) or ''}|{set(self.inner) or ''}{'|arr' if self.arr else ''}"
+        return (f"Val({set(self.direct) or ''}|{set(self.inner) or ''}{'|arr' if self.arr else ''}{'|nd' if self.nd else ''}"
                 f"{'|' + repr(set(self.fns)) if self.fns else ''})")
 
 
 EMPTY = Val()
-FRESH_ARRAY = Val(arr=True)
+FRESH_ARRAY = Val(arr=True)             # freshly allocated array-like (dense or sparse) or scalar
+FRESH_ND = Val(arr=True, nd=True)       # freshly allocated dense ndarray / numpy scalar
 
 
 def element_of(v: Val) -> Val:
     """Value obtained by indexing / iterating / attribute access: a view of an array stays the array's
     origin, an element of a fresh container is whatever the container holds."""
-    return Val(v.direct | v.inner, v.inner, v.arr and not v, v.fns)
+    return Val(v.direct | v.inner, v.inner, v.arr and not v, v.fns, nd=v.nd)   # a slice / element of an ndarray is dense
 
 
 def container_of(*vals) -> Val:
@@ -1611,20 +1616,24 @@ class FuncAnalyzer:
             for kw in e.keywords:
                 if kw.arg == "copy" and not (isinstance(kw.value, ast.Constant) and kw.value.value is True):
                     return Val(frozenset().union(*[v.all() for v in vals]) if vals else frozenset())
-            return FRESH_ARRAY                             # np.array copies by default
+            return FRESH_ND                                # np.array copies by default
         if qn == "copy.copy":
             return container_of(*[element_of(v) for v in vals])   # shallow
         if qn in LIB_VIEW:
+            if qn.startswith("scipy.sparse.") and vals and vals[0].nd:
+                return EMPTY      # a sparse matrix built from a dense ndarray always allocates its own storage
             u = frozenset()
             for v in vals:
                 u |= v.all()
             for _, v in kwvals:
                 u |= v.all()
-            return Val(u, u)
+            lists = {"numpy.split", "numpy.array_split", "numpy.hsplit", "numpy.vsplit", "numpy.nditer", "numpy.ndenumerate",
+                     "numpy.triu_indices_from", "numpy.matrix", "numpy.atleast_1d", "numpy.atleast_2d", "numpy.atleast_3d"}
+            return Val(u, u, nd=qn.startswith(("numpy.", "quaternion.")) and qn not in lists)
         if qn.startswith("numpy.random.") or qn.startswith("random.") or qn.startswith("secrets."):
             return EMPTY                                   # classified by the RNG pass (D3)
         if qn in LIB_FRESH or qn.startswith(LIB_FRESH_PREFIX) or qn.startswith(LIB_PURE_PREFIX):
-            return FRESH_ARRAY if qn.startswith(("numpy.", "quaternion.")) else EMPTY
+            return FRESH_ND if qn.startswith(("numpy.", "quaternion.")) else EMPTY
         if tracked:
             raise AnalysisError(f"{self.fi.where}: unknown-external {qn} receives a tracked value ({self.loc(e)}); "
                                 f"add it to the library model in qstatic/effects.py")
@@ -1686,7 +1695,7 @@ class FuncAnalyzer:
         if m in METHOD_FRESH:
             known = True
             if m in ("astype", "toarray", "todense", "flatten"):
-                result = result.join(FRESH_ARRAY) if not result else result
+                result = result.join(FRESH_ND if m in ("toarray", "flatten") else FRESH_ARRAY) if not result else result
         # duck-typed repository methods of the same name (e.g. B.left_multiply(A), A.conjugate().transpose())
         cands = self.engine.methods_named(m)
         if cands and (recv or any(v for v in vals) or not known):
